@@ -14,6 +14,8 @@ Definition sumz {A} (l : list A) (f : A -> Z) : Z := fold_right (fun a acc => f 
 (** C13 referential integrity *)
 Definition mon_order_shards_exist (s : State) : bool :=
   all_z (orders s) (fun _ o => forallb (fun id => bool_decide (is_Some (shards s !! id))) (o_shards o)).
+Definition mon_order_shards_nodup (s : State) : bool :=
+  all_z (orders s) (fun _ o => bool_decide (NoDup (o_shards o))).
 Definition mon_shard_has_order (s : State) : bool :=
   all_z (shards s) (fun id sh => match orders s !! sh_order sh with
                                 | Some o => inZ id (o_shards o)
@@ -143,6 +145,7 @@ Definition mon_timeouts_future (h : Z) (s : State) : bool := all_z (timeouts s) 
 
 Definition app_monitors (boundary : bool) (h : Z) (s : State) : list (string * bool) :=
   [ ("ref.order_shards_exist", mon_order_shards_exist s);
+    ("ref.order_shards_nodup", mon_order_shards_nodup s);
     ("ref.shard_has_order", mon_shard_has_order s);
     ("ref.completed_scheduled", mon_completed_scheduled s);
     ("ref.model_alias", mon_model_alias s);
